@@ -5,6 +5,7 @@ package main
 
 import (
 	"bufio"
+	"encoding/json"
 	"crypto/sha256"
 	"encoding/base64"
 	"encoding/hex"
@@ -137,7 +138,7 @@ func buildModules(root string) []string {
 //	       (and with -graph first  G <label> <root> <heap>, flushed BEFORE the real code is called)
 //	build  load; run every function target; print the events, then  R <label> <sha256 of the stored stamp>
 //	       and  F lines as above, computed after the build
-func childMain(mode, root, order string, graph, full, wire, always bool, flags []string) int {
+func childMain(mode, root, order string, graph, full, wire, always bool, flags []string, script string) int {
 	debug.SetMaxStack(256 << 20)
 	// address-space limit: a runaway allocation must kill this process, not the machine
 	lim := syscall.Rlimit{Cur: 6 << 30, Max: 6 << 30}
@@ -178,6 +179,64 @@ func childMain(mode, root, order string, graph, full, wire, always bool, flags [
 		}
 	}
 	sort.Slice(targets, func(i, j int) bool { return targets[i].Label().String() < targets[j].Label().String() })
+
+	if mode == "watch" {
+		// one long-lived process, as `dawn watch` and the REPL: Load once, build, then for every round of the script apply an
+		// edit, Reload, build again. Events are printed per round after a  K <round>  line.
+		var rounds []struct {
+			File string `json:"file"`
+			Old  string `json:"old"`
+			New  string `json:"new"`
+		}
+		raw, err := os.ReadFile(script)
+		if err == nil {
+			err = json.Unmarshal(raw, &rounds)
+		}
+		if err != nil {
+			fmt.Fprintf(out, "L\tload-error\tscript: %s\n", oneLine(err.Error()))
+			return 0
+		}
+		runRoots := func() {
+			var roots []dawn.Target
+			for _, t := range proj.Targets() {
+				if dawn.IsTarget(t.Label()) && t.Label().Name == "default" {
+					roots = append(roots, t)
+				}
+			}
+			sort.Slice(roots, func(i, j int) bool { return roots[i].Label().String() < roots[j].Label().String() })
+			for _, t := range roots {
+				if err := proj.Run(t.Label(), nil); err != nil {
+					ev.add("E\t%s\trun-error\t%s", t.Label(), oneLine(err.Error()))
+				}
+			}
+			for _, l := range ev.log {
+				fmt.Fprintln(out, l)
+			}
+			ev.log = nil
+			out.Flush()
+		}
+		fmt.Fprintf(out, "K\t0\n")
+		runRoots()
+		for i, rd := range rounds {
+			p := filepath.Join(root, rd.File)
+			text, err := os.ReadFile(p)
+			if err != nil || strings.Count(string(text), rd.Old) != 1 {
+				fmt.Fprintf(out, "K\t%d\tedit-does-not-apply\n", i+1)
+				break
+			}
+			os.WriteFile(p, []byte(strings.Replace(string(text), rd.Old, rd.New, 1)), 0644)
+			fmt.Fprintf(out, "K\t%d\n", i+1)
+			if err := proj.Reload(); err != nil {
+				fmt.Fprintf(out, "E\t-\treload-error\t%s\n", oneLine(err.Error()))
+				ev.log = nil
+				continue
+			}
+			ev.log = nil
+			runRoots()
+		}
+		fmt.Fprintf(out, "D\tdone\n")
+		return 0
+	}
 
 	if mode == "build" {
 		// one Run per package root (`default` depends on every target of its package): every target is
